@@ -20,9 +20,9 @@ OPERATOR = [
     spec="        ensures match reg_cfg(op@) { Some(c) => r == Ok::<Arc<InfixOpFunc>, Error>(c.3), None => r is Err },  // @C08 dispatch.infix_handler\n            (r is Ok) == infix_h(op@).is_some(), r matches Ok(t) ==> t == infix_h(op@).unwrap(),"),
   F('InfixOpManager::get_op_type', props=['C08'],
     spec="        ensures match reg_cfg(op@) { Some(c) => r == Ok::<InfixOpType, Error>(c.1), None => r is Err },  // @C08 dispatch.infix_type\n            (r is Ok) == infix_ty(op@).is_some(), r matches Ok(t) ==> t == infix_ty(op@).unwrap(),"),
-  F('InfixOpManager::get_precidence', props=['C02', 'C08'],
-    spec="""        ensures reg_infix(op@) ==> r.0 == lbp(op@) && r.1 == rbp(op@),   // @C02,C08 get_precidence.powers
-            !reg_infix(op@) ==> r == (-1i32, -1i32),  // @C02,C08 get_precidence.unregistered""",
+  F('InfixOpManager::get_precidence', props=['C02', 'C08', 'C12'],
+    spec="""        ensures reg_infix(op@) ==> r.0 == lbp(op@) && r.1 == rbp(op@),   // @C02,C08,C12 get_precidence.powers
+            !reg_infix(op@) ==> r == (-1i32, -1i32),  // @C02,C08,C12 get_precidence.unregistered""",
     ops=[Ins('entry', '', "        proof { broadcast use axiom_domain; }")]),
 ]
 KEYWORD = [
